@@ -31,7 +31,9 @@ JUMPS = M('cfgjumps', ('S', 'ret', 'brk', 'cont', 'raise'),
           vars_=(), ret=(None,), depth=4)
 EXC = M('cfgexc', ('S', 'raise', 'ret'), ('if', 'tryex', 'tryO', 'tryfin', 'tryexfin', 'tryexelse', 'try2h', 'while'),
         vars_=(), ret=(None,))
-PLAN = {'quick': [(FULL, 5), (JUMPS, 5), (EXC, 6)], 'thorough': [(FULL, 5), (JUMPS, 6), (EXC, 7)]}
+# a bare `except:` with an else clause inside a try with handlers (raise in the else clause is not caught by its own try)
+BARE = M('cfgbare', ('S', 'raise'), ('tryex', 'trybareelse'), vars_=(), ret=(None,))
+PLAN = {'quick': [(FULL, 5), (JUMPS, 5), (EXC, 6), (BARE, 8)], 'thorough': [(FULL, 5), (JUMPS, 6), (EXC, 7), (BARE, 9)]}
 CAP = {'quick': 8, 'thorough': 10}
 DEV = {'quick': 4, 'thorough': 5}
 _S = {'tier': 'quick'}
